@@ -263,6 +263,8 @@ type dnsOp struct {
 	chain    *dnsChain // upstream queries issued by this op's own task
 	refreshSpawned bool
 	expectReject bool
+	pre          *dnsEntryObs // entry cached under the op's key when the op began
+	reloadOverlap int
 }
 
 type dnsCfg struct {
@@ -322,6 +324,13 @@ type dnsWorld struct {
 	opsTotal  int
 	envBudget int
 	envTasks  int
+	reloads   int
+	lruBatch  []*dnsEntryObs
+	lruBefore int
+	lruAt     time.Duration
+	lruStep   int
+	lruBusy   bool
+	maxCount  int
 
 	// cache observation (ground truth of what the controller holds)
 	track     *dnsCacheTrack
@@ -1172,6 +1181,11 @@ func (w *dnsWorld) doOp(op *dnsOp, timeout time.Duration) {
 	op.gen = w.gen
 	op.key = w.keyOf(op.name, op.qtype)
 	op.expectReject = op.key.scope == -1
+	op.reloadOverlap = w.reloads
+	if w.track != nil {
+		w.track.scan()
+		op.pre = w.track.entry(op.key)
+	}
 	w.curOp[op.task] = op
 	delete(w.chains, op.task)
 	msg := new(dnsmessage.Msg)
